@@ -477,7 +477,17 @@ def oracle_tools(run, tier, rng):
         f = res["failures"][0]
         return {"ok": False, "what": "example tool %s: %s (argv %s)" % (f.get("tool"), f.get("what"), " ".join(map(str, f.get("argv", [])))[:200]),
                 "witness": {"lines": ["# " + _json.dumps(f)[:2000]]}, "cases": res["cases"]}
-    return {"ok": True, "cases": res["cases"], "distinct_nontrivial": res["distinct_nontrivial"], "invalid_cases": res["invalid_cases"],
+    # the same comparison with the Lean model (the functions the C20 theorems are about) as the reference
+    model = os.path.join(vlib.LEAN, ".lake", "build", "bin", "skinny_model")
+    res2 = {"cases": 0}
+    if os.path.exists(model):
+        wd2 = vlib.scratch_dir("skv-tools-m-")
+        res2 = tools_drv.run_tools_check(os.path.join(d, "examples"), model, run.seed + 7, N(tier, 3, 30), wd2)
+        if not res2["ok"]:
+            f = res2["failures"][0]
+            return {"ok": False, "what": "example tool %s differs from the Lean model: %s (argv %s)" % (f.get("tool"), f.get("what"), " ".join(map(str, f.get("argv", [])))[:200]),
+                    "witness": {"lines": ["# reference = lean/.lake/build/bin/skinny_model", "# " + _json.dumps(f)[:2000]]}, "cases": res2["cases"]}
+    return {"ok": True, "cases": res["cases"], "cases_against_lean_model": res2["cases"], "distinct_nontrivial": res["distinct_nontrivial"], "invalid_cases": res["invalid_cases"],
             "by_tool": res.get("by_tool"), "length_classes": res.get("length_classes"), "invalid_classes": res.get("invalid_classes"), "samples": res.get("samples")}
 
 PROPS["C20"] = {"scripts": None, "configs": only_default, "backends": one_backend, "modules": [], "theorems": [], "oracles": [("tools", oracle_tools)]}
@@ -521,7 +531,7 @@ thm("C09", ["C08"], ["C09_block_functions", "C09_table_complete", "C11_no_junk_i
 PROPS["C09"]["modules"].append("SkinnyVerif.Properties.C11")
 thm("C18", ["C18", "C13"], ["C18_no_mutable_statics", "C18_census_nonempty", "C18_parallel_crypt_read_only", "C18_mantis_parallel_crypt_read_only", "setVal_comm", "C13_deterministic"])
 thm("C19", ["C12", "C04", "C06"], ["C12_skinny128", "C12_skinny64", "C04_skinny128", "C04_skinny64", "C05_stream"])
-thm("C20", ["C06", "C07"], ["C05_stream", "C05_involution", "parallelBlocks_eq_ecb", "ecb_length"])
+thm("C20", ["C20"], ["C20_ctr_tool", "C20_ctr_tool_roundtrip", "C20_ecb_tool", "C20_increment_tweak", "C20_tweak_of_block", "C20_tweak_tool", "readChunks_flatten"])
 thm("C11", ["C11"], ["C11_skinny128", "C11_skinny64", "C11_tweaked128", "C11_no_junk_in_loaders"])
 thm("C12", ["C12"], ["C12_skinny128", "C12_skinny64", "C12_tweaked128", "C12_tweaked64"])
 thm("C10", ["C10"], ["C10_skinny128_set_key", "C10_skinny64_set_key", "C10_null_key128", "C10_null_key64", "C10_mantis_set_key"])
